@@ -1,33 +1,103 @@
-import C2paModel.Model.C03
+import C2paModel.Base
 /-
 C22 — model of the working-store archive round trip (sdk/src/builder.rs `to_archive` →
-`working_store_sign`, `with_archive` → `Store::from_stream` + `Reader::with_store` +
-`Reader::into_builder` in sdk/src/reader.rs; docs/working-stores.md).
+`working_store_sign` → `to_claim`; `with_archive` → `Store::from_stream` + `Reader::with_store` +
+`Reader::into_builder` in sdk/src/reader.rs; `Manifest::from_store` in sdk/src/manifest.rs;
+`Ingredient::add_to_claim` / `Ingredient::from_ingredient_uri` / `IngredientStoreResolver` in
+sdk/src/ingredient.rs; `Store::build_flat_ingredient_store`; docs/working-stores.md).
 
-`to_archive` is *not* a serialisation of the builder record: it runs `to_claim`, adds an
+`to_archive` is *not* a serialisation of the builder record: it runs `to_claim` (which applies
+the settings-driven action additions, the intent, the redactions, re-homes ingredient thumbnails
+and merges the ingredients' manifest stores into the claim), adds an
 `org.contentauth.archive.metadata` assertion and a box hash over the empty asset, and signs the
 result as an ordinary manifest store. `with_archive` reads that store like any other one and
 rebuilds a definition from the *report* (`Manifest::from_store`). The model therefore is
-  encode : builder state → store entries (what `to_claim` + `working_store_sign` put in the claim)
-  decode : store entries → builder state (what `from_store` + `into_builder` take out)
-with every branch that drops or rewrites something kept (labels re-normalised, archive metadata
-and hard bindings filtered by label prefix — also when the *user* chose such a label —,
-`hash_alg`/`metadata` not restored, `format` of a version-2 claim not carried, the manifest label
-pinned to the archive's label, `vendor`/`claim_version` re-derived from that label).
 
-Opaque here: payloads, ingredient manifest stores and their captured validation results
-(strings; C39 looks inside), JUMBF/CBOR encoding (C18), the signature of the archive.
-The legacy ZIP reader (`old_from_archive`) is exercised by the harness only.
+  toClaim : settings → builder state → claim        (shared by `encode` and `sign`)
+  encode  = toClaim + archive metadata + box hash, read back (`wire`)
+  decode  : archive → builder state                 (`from_store` + `into_builder`)
+  sign    = maybe_add_parent + toClaim + data hash, read back, reported (`report`)
+
+with every branch that drops or rewrites something kept: label prefixes routed by `from_store`
+(`c2pa.ingredient*`, `c2pa.hash.bmff*`, `c2pa.thumbnail.claim*`, `*.metadata`), the archive
+bookkeeping filter of `into_builder`, `hash_alg` / `intent` / `remote_url` / `no_embed` not
+restored, `format` of a version-2 claim not carried, manifest label pinned to the archive's label,
+`vendor` / `claim_version` re-derived from that label, ingredient thumbnails re-homed or declared
+stale, ingredient manifest stores re-collected by the walk over ingredient assertions, validation
+results carried only in the form the claim version stores.
+
+Not modelled (see registry/C22.json): payload bytes and their CBOR/JSON encodings (opaque
+strings; an actions assertion is its list of action names and template names), the JUMBF
+encoding (C18), the archive's own signature, CAWG identity assertions, generator icons and other
+named resources (checked on the implementation only), redaction of thumbnails / data boxes,
+conflict resolution between ingredient stores that hold different manifests under one label, the
+legacy ZIP reader (`old_from_archive`, exercised by two fixtures).
 -/
 namespace C2pa.C22
-open C2pa.C03
 
-/-- `AssertionDefinition` -/
+def startsWith (p l : String) : Bool := p.toList.isPrefixOf l.toList
+def endsWith (p l : String) : Bool := p.toList.isSuffixOf l.toList
+
+def infixOf (p : List Char) : List Char → Bool
+  | [] => p.isEmpty
+  | c :: cs => p.isPrefixOf (c :: cs) || infixOf p cs
+
+/-! ### builder state -/
+
+/-- settings read by `to_claim` (`builder.actions.actions`, `builder.actions.templates`); the
+auto-created / auto-opened / auto-placed switches are off (their default) -/
+structure Cfg where
+  extraActions : List String := []
+  templates : List String := []
+  deriving DecidableEq, Repr
+
+inductive Intent | create | edit | update
+  deriving DecidableEq, Repr
+
+inductive Err
+  | badParam | redactionNotFound | invalidRedaction | versionTooNew | noProvenance
+  deriving DecidableEq, Repr
+
+/-- `AssertionDefinition`. An actions assertion is its action names and template names (`acts`,
+`tmpls`); any other assertion is an opaque payload (`data`). -/
 structure BAsn where
   label : String
   data : String
+  acts : List String
+  tmpls : List String
   json : Bool
   created : Bool
+  deriving DecidableEq, Repr
+
+/-- one manifest of an ingredient's manifest store: its label, claim version, whether it has a
+claim thumbnail assertion, its assertion labels, and the manifests its ingredient assertions
+refer to — `(true, l)` through `activeManifest` (a `c2pa.ingredient.v3` assertion), `(false, l)`
+through `c2pa_manifest` (`c2pa.ingredient` / `.v2`) -/
+structure Man where
+  label : String
+  v : Nat
+  thumb : Bool
+  asns : List String
+  links : List (Bool × String)
+  deriving DecidableEq, Repr
+
+/-- the identifier of an ingredient's thumbnail as the builder holds it -/
+inductive TRef
+  /-- a resource of the builder's resource store (plain identifier) holding image `img` -/
+  | res (img : String)
+  /-- absolute JUMBF URI of the claim thumbnail of the ingredient's own active manifest, with
+  (`Ingredient::from_stream`) or without (`from_ingredient_uri`) its hash -/
+  | own (hash : Bool)
+  /-- absolute JUMBF URI into an earlier archive's manifest (data box or
+  `c2pa.thumbnail.ingredient` assertion) holding image `img` -/
+  | outer (img : String)
+  deriving DecidableEq, Repr
+
+/-- where an ingredient assertion's `thumbnail` hashed URI points -/
+inductive TLoc
+  | ownClaim
+  | databox (img : String)
+  | ingThumb (img : String)
   deriving DecidableEq, Repr
 
 /-- `Ingredient` as the builder carries it -/
@@ -36,12 +106,17 @@ structure Ing where
   format : String
   rel : String
   iid : String
-  label : Option String
-  /-- the ingredient's manifest store bytes -/
-  manifest : Option String
-  /-- validation results captured when the ingredient was added -/
-  results : Option String
-  thumb : Option String
+  /-- assertion label and instance, set when the ingredient was read from a claim -/
+  label : Option (String × Nat)
+  /-- `active_manifest` (assumed to name the provenance claim of `store`) -/
+  active : Option String
+  /-- `manifest_data`: the ingredient's manifest store (`[]` = none) -/
+  store : List Man
+  /-- `validation_results`: `some true` = not `Invalid` -/
+  results : Option Bool
+  /-- `validation_status` codes -/
+  status : List String
+  thumb : Option TRef
   deriving DecidableEq, Repr
 
 /-- a manifest label: one generated by `Claim::new` (whose parts `manifest_label_to_parts`
@@ -57,7 +132,10 @@ structure Gen where
   marked : Bool
   deriving DecidableEq, Repr
 
-/-- the part of `Builder` that `to_claim` reads -/
+/-- a redaction: (manifest label, assertion label) of the JUMBF URI -/
+abbrev Red := String × String
+
+/-- the part of `Builder` that `to_claim` / `sign` read -/
 structure BState where
   title : Option String
   format : String
@@ -66,65 +144,236 @@ structure BState where
   label : Option MLabel
   vendor : Option String
   generators : List Gen
+  /-- (format, image) -/
   thumbnail : Option (String × String)
-  redactions : Option (List String)
+  redactions : Option (List Red)
   ingredients : List Ing
   assertions : List BAsn
   hashAlg : Option String
   instanceId : String
+  intent : Option Intent
+  remoteUrl : Option String
+  noEmbed : Bool
   deriving DecidableEq, Repr
 
 def BState.v (s : BState) : Nat := s.version.getD 2
 
-/-- what the active claim of the archive holds, in claim order -/
-inductive Entry
-  | thumb (fmt bytes : String)
-  | ingredient (i : Ing)
-  | user (a : BAsn) (inst : Nat)
-  | archiveMeta
-  | boxHash
+/-! ### ingredients: `Ingredient::add_to_claim` -/
+
+def findMan (st : List Man) (l : String) : Option Man := st.find? (fun m => m.label == l)
+
+/-- the provenance claim of the ingredient's store -/
+def activeMan (i : Ing) : Option Man :=
+  match i.active with
+  | some a => findMan i.store a
+  | none => none
+
+def ownImg (l : String) : String := "own:" ++ l
+
+/-- `validation_results().is_some_and(|v| v.validation_state() != Invalid)` -/
+def isValid (i : Ing) : Bool := i.results == some true
+
+/-- "use the parent claim thumbnail if validation passed" -/
+def baseThumb (i : Ing) : Option TLoc :=
+  match activeMan i with
+  | some m => if isValid i && m.thumb then some .ownClaim else none
+  | none => none
+
+/-- a thumbnail without a hash is copied into the new claim: a data box in a version-1 claim,
+a `c2pa.thumbnail.ingredient` assertion otherwise -/
+def rehome (v : Nat) (img : String) : TLoc := if v < 2 then .databox img else .ingThumb img
+
+/-- the `thumbnail` of the ingredient assertion. A JUMBF reference that does not name the
+ingredient's own active manifest, on an ingredient that has manifest data, is "stale" and
+dropped in favour of the claim thumbnail of the ingredient's manifest. -/
+def thumbLoc (v : Nat) (i : Ing) : Option TLoc :=
+  match i.thumb with
+  | none => baseThumb i
+  | some (.res img) => some (rehome v img)
+  | some (.own true) => some .ownClaim
+  | some (.own false) => some (rehome v (ownImg (i.active.getD "")))
+  | some (.outer img) => if i.store.isEmpty then some (rehome v img) else baseThumb i
+
+/-- an ingredient assertion as written into a claim -/
+structure IngA where
+  title : String
+  format : String
+  rel : String
+  iid : String
+  active : Option String
+  results : Option Bool
+  status : List String
+  thumb : Option TLoc
   deriving DecidableEq, Repr
 
-structure Archive where
-  label : MLabel
-  version : Nat
-  title : Option String
-  /-- `dc:format`, only in a version-1 claim -/
-  format : Option String
-  instanceId : String
-  generators : List Gen
-  redactions : Option (List String)
-  alg : Option String
-  entries : List Entry
-  deriving DecidableEq, Repr
+/-- a version-1 claim writes a `c2pa.ingredient.v2` assertion (with `validation_status`), a
+version-2 claim a `.v3` one (with `validation_results`) -/
+def ingAssertion (v : Nat) (i : Ing) : IngA :=
+  { title := i.title, format := i.format, rel := i.rel, iid := i.iid
+    active := (activeMan i).map (·.label)
+    results := if v ≥ 2 then i.results else none
+    status := if v ≥ 2 then [] else i.status
+    thumb := thumbLoc v i }
 
-/-- `claim_generator_info[0].insert("org.contentauth.c2pa_rs", version)`; an empty list gets
-the default entry first -/
-def markGens : List Gen → List Gen
-  | [] => [⟨"default", true⟩]
-  | g :: gs => { g with marked := true } :: gs
+/-- `Claim::redact_assertion` on one manifest -/
+def redactMan (m : Man) (a : String) : Except Err Man :=
+  if startsWith "c2pa.actions" a || startsWith "c2pa.hash." a then .error .invalidRedaction
+  else if m.asns.contains a then .ok { m with asns := m.asns.erase a }
+  else .error .redactionNotFound
 
+def redactFirst (l a : String) : List Man → Except Err (List Man)
+  | [] => .ok []
+  | m :: ms =>
+    if m.label == l then do
+      let m' ← redactMan m a
+      .ok (m' :: ms)
+    else do
+      let ms' ← redactFirst l a ms
+      .ok (m :: ms')
+
+/-- `Claim::add_ingredient_data`: every requested redaction that names a manifest of this batch
+is applied to it (and recorded); the others wait for their ingredient -/
+def applyReds : List Red → List Man → Except Err (List Man × List Red)
+  | [], st => .ok (st, [])
+  | r :: rs, st =>
+    if st.any (fun m => m.label == r.1) then do
+      let st' ← redactFirst r.1 r.2 st
+      let (st'', ap) ← applyReds rs st'
+      .ok (st'', r :: ap)
+    else applyReds rs st
+
+/-- conflict handling of `load_ingredient_to_claim` (version ≥ 2 claims), as far as modelled: an
+incoming manifest whose label the claim already holds in a different form — different because
+the claim's own redactions were applied to it — is not brought in again ("if redactions were
+only in the claim we can skip bringing the ingredient"). Manifests that differ otherwise are
+re-labelled by the code; that branch is not modelled (`WF.consistent` excludes it). -/
+def dropConflicts (v : Nat) (reds : List Red) (ms incoming : List Man) : List Man :=
+  if v ≥ 2 && !reds.isEmpty then
+    incoming.filter (fun m => !(ms.any (fun x => x.label == m.label && x != m)))
+  else incoming
+
+/-- `Store::load_ingredient_to_claim`; `ms` are the manifests the claim already holds -/
+def loadIngredient (v : Nat) (reds : List Red) (ms : List Man) (i : Ing) :
+    Except Err (List Man × List Red) :=
+  if i.store.isEmpty then .ok ([], [])
+  else match activeMan i with
+    | none => .error .noProvenance
+    | some m => if v < m.v then .error .versionTooNew else applyReds reds (dropConflicts v reds ms i.store)
+
+/-- `Claim::replace_ingredient_or_insert` -/
+def upsert (ms : List Man) (m : Man) : List Man :=
+  if ms.any (fun x => x.label == m.label) then ms.map (fun x => if x.label == m.label then m else x)
+  else ms ++ [m]
+
+def addIngredients (v : Nat) (reds : List Red) :
+    List Ing → List Man → List Red → Except Err (List IngA × List Man × List Red)
+  | [], ms, ap => .ok ([], ms, ap)
+  | i :: is, ms, ap =>
+    match loadIngredient v reds ms i with
+    | .error e => .error e
+    | .ok (st, ap') =>
+      match addIngredients v reds is (st.foldl upsert ms) (ap ++ ap') with
+      | .error e => .error e
+      | .ok (as, ms', ap'') => .ok (ingAssertion v i :: as, ms', ap'')
+
+/-! ### assertions: settings, intent, labels, numbering -/
+
+def isActions (l : String) : Bool := startsWith "c2pa.actions" l
+
+def isInception (a : String) : Bool := a == "c2pa.created" || a == "c2pa.opened"
+
+/-- `add_actions_assertion_settings` on one actions assertion -/
+def actionsSettings (cfg : Cfg) (intent : Option Intent) (hasParent allow : Bool)
+    (acts tmpls : List String) : Except Err (List String × List String) :=
+  let tmpls' := tmpls ++ cfg.templates
+  let acts' := acts ++ cfg.extraActions
+  if !allow && acts'.any isInception then .error .badParam
+  else if allow && !acts'.any isInception then
+    match intent with
+    | some .create => if hasParent then .error .badParam else .ok ("c2pa.created" :: acts', tmpls')
+    | some _ => if hasParent then .ok ("c2pa.opened" :: acts', tmpls') else .error .badParam
+    | none => .ok (acts', tmpls')
+  else .ok (acts', tmpls')
+
+def rewriteAsns (cfg : Cfg) (intent : Option Intent) (hasParent : Bool) :
+    List BAsn → Bool → Except Err (List BAsn)
+  | [], _ => .ok []
+  | a :: as, allow =>
+    if isActions a.label then
+      match actionsSettings cfg intent hasParent allow a.acts a.tmpls with
+      | .error e => .error e
+      | .ok (acts, tmpls) =>
+        match rewriteAsns cfg intent hasParent as false with
+        | .error e => .error e
+        | .ok rest => .ok ({ a with acts := acts, tmpls := tmpls } :: rest)
+    else
+      match rewriteAsns cfg intent hasParent as allow with
+      | .error e => .error e
+      | .ok rest => .ok (a :: rest)
+
+/-- the assertion loop of `to_claim` as far as the payloads go, including the `!found_actions`
+branch that adds an actions assertion of its own -/
+def prepAsns (cfg : Cfg) (intent : Option Intent) (hasParent : Bool) (as : List BAsn) :
+    Except Err (List BAsn) :=
+  match rewriteAsns cfg intent hasParent as true with
+  | .error e => .error e
+  | .ok as' =>
+    if as.any (fun a => isActions a.label) then .ok as'
+    else match actionsSettings cfg intent hasParent true [] [] with
+      | .error e => .error e
+      | .ok (acts, tmpls) =>
+        if acts.isEmpty then .ok as'
+        else .ok (as' ++ [⟨"c2pa.actions", "", acts, tmpls, false, acts.any isInception⟩])
+
+/-- the typed `Actions` assertion is written under `c2pa.actions.v2` -/
+def normLabel (l : String) : String := if isActions l then "c2pa.actions.v2" else l
+
+def isHardBinding (l : String) : Bool :=
+  l == "c2pa.hash.data" || l == "c2pa.hash.bmff" || l == "c2pa.hash.boxes" || startsWith "c2pa.hash.bmff" l
+
+/-- labels `to_claim` always adds as gathered (`claim.add_assertion`), whatever the flag -/
+def alwaysGathered (l : String) : Bool :=
+  l == "stds.schema-org.CreativeWork" || l == "c2pa.hash.data" || l == "c2pa.hash.boxes" || l == "c2pa.hash.bmff"
+
+/-- the typed paths re-encode the payload in their own form -/
+def typedKind (l : String) (json : Bool) : Bool :=
+  if isActions l then false
+  else if l == "stds.schema-org.CreativeWork" || l == "stds.exif" || l == "c2pa.metadata" then true
+  else json
+
+/-- what `to_claim` makes of one assertion definition in a version-`v` claim -/
+def norm (v : Nat) (a : BAsn) : BAsn :=
+  { a with label := normLabel a.label
+           json := typedKind a.label a.json
+           created := a.created && decide (v ≥ 2) && !alwaysGathered (normLabel a.label) }
+
+/-- `Claim::next_instance`: one more than the largest instance among stored assertions whose
+label *contains* the new label -/
 def instOf (store : List (String × Nat)) (label : String) : Nat :=
   match (store.filter fun x => infixOf label.toList x.1.toList).map (·.2) with
   | [] => 0
   | i :: is => (is.foldl max i) + 1
 
-/-- labels `to_claim` always adds as gathered (`claim.add_assertion`), whatever the flag -/
-def alwaysGathered (l : String) : Bool :=
-  l == "stds.schema-org.CreativeWork" || isHardBinding l
+/-- what the active claim holds -/
+inductive Entry
+  | thumb (fmt img : String)
+  | ingredient (i : IngA) (inst : Nat)
+  | user (a : BAsn) (inst : Nat)
+  | archiveMeta
+  | boxHash
+  | dataHash
+  deriving DecidableEq, Repr
 
-/-- the user assertions as `to_claim` adds them: label normalised, instance by `next_instance`;
-a version-1 claim has no created/gathered distinction (the flag is not carried) -/
-def numberAsns (v : Nat) : List BAsn → List (String × Nat) → List Entry
+/-- the (already normalised) user assertions numbered in the order `to_claim` adds them -/
+def numberAsns : List BAsn → List (String × Nat) → List Entry
   | [], _ => []
   | a :: as, seen =>
-    let l := normLabel a.label
-    let i := instOf seen l
-    .user { a with label := l, created := a.created && decide (v ≥ 2) && !alwaysGathered l } i ::
-      numberAsns v as (seen ++ [(l, i)])
+    let i := instOf seen a.label
+    .user a i :: numberAsns as (seen ++ [(a.label, i)])
 
 def entryCreated : Entry → Bool
   | .user a _ => a.created
+  | .archiveMeta => true
   | _ => false
 
 /-- the order in which a claim read back from its CBOR lists its assertions: a version ≥ 2 claim
@@ -132,50 +381,175 @@ has a `created_assertions` and a `gathered_assertions` list, read back in that o
 def claimOrder (v : Nat) (es : List Entry) : List Entry :=
   if v ≥ 2 then es.filter entryCreated ++ es.filter (fun e => !entryCreated e) else es
 
+/-! ### `to_claim` -/
+
+/-- `claim_generator_info[0].insert("org.contentauth.c2pa_rs", version)`; an empty list gets
+the default entry first -/
+def markGens : List Gen → List Gen
+  | [] => [⟨"default", true⟩]
+  | g :: gs => { g with marked := true } :: gs
+
 /-- the label the claim gets: the caller's label, or a fresh generated one -/
 def claimLabel (s : BState) (guid : String) : MLabel :=
   match s.label with
   | some l => l
   | none => .gen (s.v == 1) s.vendor guid
 
-/-- `working_store_sign(ArchiveKind::Builder)`: `to_claim`, archive metadata, box hash -/
-def encode (s : BState) (guid : String) : Archive :=
-  { label := claimLabel s guid
-    version := s.v
-    title := s.title
-    format := if s.v ≥ 2 then none else some s.format
-    instanceId := s.instanceId
-    generators := markGens s.generators
-    redactions := s.redactions
-    alg := s.hashAlg
-    entries :=
-      (match s.thumbnail with | some (f, b) => [Entry.thumb f b] | none => []) ++
-      s.ingredients.map Entry.ingredient ++
-      claimOrder s.v (numberAsns s.v s.assertions []) ++ [Entry.archiveMeta, Entry.boxHash] }
+structure Claim where
+  label : MLabel
+  version : Nat
+  title : Option String
+  /-- `dc:format`, only in a version-1 claim once written -/
+  format : Option String
+  instanceId : String
+  generators : List Gen
+  /-- the redactions that were applied -/
+  redactions : List Red
+  alg : Option String
+  entries : List Entry
+  /-- the ingredients' manifests -/
+  manifests : List Man
+  /-- in-memory only (`RemoteManifest`): not part of the serialised store -/
+  remote : Option String
+  embedded : Bool
+  update : Bool
+  deriving DecidableEq, Repr
+
+def ingLabel (v : Nat) : String := if v ≥ 2 then "c2pa.ingredient.v3" else "c2pa.ingredient.v2"
+
+def numberIngs : List IngA → Nat → List Entry
+  | [], _ => []
+  | i :: is, k => .ingredient i k :: numberIngs is (k + 1)
+
+def hasParent (s : BState) : Bool := s.ingredients.any (fun i => i.rel == "parentOf")
+
+/-- `Builder::to_claim` -/
+def toClaim (cfg : Cfg) (s : BState) (guid : String) : Except Err Claim :=
+  match addIngredients s.v (s.redactions.getD []) s.ingredients [] [] with
+  | .error e => .error e
+  | .ok (ings, mans, applied) =>
+  if (s.redactions.getD []).any (fun r => !applied.contains r) then .error .redactionNotFound
+  else match prepAsns cfg s.intent (hasParent s) s.assertions with
+  | .error e => .error e
+  | .ok as =>
+  .ok
+    { label := claimLabel s guid
+      version := s.v
+      title := s.title
+      format := some s.format
+      instanceId := s.instanceId
+      generators := markGens s.generators
+      redactions := applied
+      alg := s.hashAlg
+      entries :=
+        (match s.thumbnail with
+          | some (f, b) => if f == "none" then [] else [Entry.thumb f b]
+          | none => []) ++
+        numberIngs ings 0 ++ numberAsns (as.map (norm s.v)) []
+      manifests := mans
+      remote := s.remoteUrl
+      embedded := !s.noEmbed
+      update := s.intent == some .update }
+
+/-- serialisation + parsing of the claim: a version ≥ 2 claim has no `dc:format`, its assertion
+list is the created list followed by the gathered list; where the manifest is to live is not
+part of the store -/
+def wire (c : Claim) : Claim :=
+  { c with format := if c.version ≥ 2 then none else c.format
+           entries := claimOrder c.version c.entries }
+
+/-! ### `to_archive` / `with_archive` -/
+
+/-- `working_store_sign(ArchiveKind::Builder)`: `to_claim`, archive metadata (a created
+assertion), box hash; the store is written and read back. `remote_url` / `no_embed` / the update
+flag steer `Builder::sign` only: an archive does not record them. -/
+def sealArchive (c : Claim) : Claim :=
+  wire { c with entries := c.entries ++ [Entry.archiveMeta, Entry.boxHash]
+                remote := none, embedded := true, update := false }
+
+def encode (cfg : Cfg) (s : BState) (guid : String) : Except Err Claim :=
+  (toClaim cfg s guid).map sealArchive
 
 def archiveMetaLabel : String := "org.contentauth.archive.metadata"
 
-/-- which user entries survive `Manifest::from_store` + the filter of `into_builder` -/
-def keptLabel (l : String) : Bool :=
-  !isHardBinding l && !archiveMetaLabel.toList.isPrefixOf l.toList
+/-- the arms of `Manifest::from_store`, in source order, on the label without instance -/
+inductive Part | actions | ingredient | hidden | thumbnail | metadata | assertion
+  deriving DecidableEq, Repr
 
+def classify (l : String) : Part :=
+  if startsWith "c2pa.actions" l then .actions
+  else if startsWith "c2pa.ingredient" l then .ingredient
+  else if isHardBinding l then .hidden
+  else if startsWith "c2pa.thumbnail.claim" l then .thumbnail
+  else if l == "c2pa.assertion.metadata" then .assertion
+  else if endsWith ".metadata" l then .metadata
+  else .assertion
+
+/-- a user assertion comes back as an assertion of the definition (`from_store` pushes it to
+`manifest.assertions`, `into_builder` does not skip it) -/
+def keptLabel (l : String) : Bool :=
+  (classify l == .actions || classify l == .metadata || classify l == .assertion) &&
+    !startsWith archiveMetaLabel l
+
+/-- a user assertion is listed among the reported assertions (`from_store` alone: the archive
+bookkeeping filter belongs to `into_builder`) -/
+def shownLabel (l : String) : Bool :=
+  classify l == .actions || classify l == .metadata || classify l == .assertion
+
+/-- the kind `from_store` reports: `*.metadata` is forced to JSON -/
+def reportKind (l : String) (json : Bool) : Bool := if classify l == .metadata then true else json
+
+/-- the user assertions as `from_store` + `into_builder` return them. (A user assertion routed
+to the ingredient / thumbnail arms makes `from_store` parse it as such: the harness shows that
+signing such a definition already yields an invalid manifest; here it is dropped.) -/
 def decodeEntries : List Entry → List BAsn
   | [] => []
-  | .user a _ :: es => if keptLabel a.label then a :: decodeEntries es else decodeEntries es
+  | .user a _ :: es =>
+    if keptLabel a.label then { a with json := reportKind a.label a.json } :: decodeEntries es
+    else decodeEntries es
   | _ :: es => decodeEntries es
-
-def entryIngs : List Entry → List Ing
-  | [] => []
-  | .ingredient i :: es => i :: entryIngs es
-  | _ :: es => entryIngs es
 
 def entryThumb : List Entry → Option (String × String)
   | [] => none
   | .thumb f b :: _ => some (f, b)
   | _ :: es => entryThumb es
 
+/-- `Store::build_flat_ingredient_store`: the walk over ingredient assertions from one manifest,
+children first; `fuel` bounds the depth (the code keeps a path and a visited set) -/
+def collect (st : List Man) : Nat → List String → List Man → List Man
+  | 0, _, acc => acc
+  | fuel + 1, ls, acc =>
+    ls.foldl (fun acc l =>
+      if acc.any (fun m => m.label == l) then acc
+      else match findMan st l with
+        | none => acc
+        | some m =>
+          let acc' := collect st fuel (m.links.map (·.2)) acc
+          if acc'.any (fun x => x.label == l) then acc' else acc' ++ [m]) acc
+
+def flatStore (st : List Man) (a : String) : List Man := collect st (st.length + 1) [a] []
+
+/-- `Ingredient::from_ingredient_uri` + `set_store_resolver` -/
+def decodeIng (v : Nat) (mans : List Man) (i : IngA) (inst : Nat) : Ing :=
+  { title := i.title, format := i.format, rel := i.rel, iid := i.iid
+    label := some (ingLabel v, inst)
+    active := i.active
+    store := match i.active with | some a => flatStore mans a | none => []
+    results := i.results
+    status := i.status
+    thumb := match i.thumb with
+      | none => none
+      | some .ownClaim => some (.own false)
+      | some (.databox img) => some (.outer img)
+      | some (.ingThumb img) => some (.outer img) }
+
+def entryIngs (v : Nat) (mans : List Man) : List Entry → List Ing
+  | [] => []
+  | .ingredient i k :: es => decodeIng v mans i k :: entryIngs v mans es
+  | _ :: es => entryIngs v mans es
+
 /-- `Reader::into_builder` on the archive's active manifest -/
-def decode (a : Archive) : BState :=
+def decode (a : Claim) : BState :=
   { title := a.title
     format := a.format.getD ""
     version := match a.label with | .gen true _ _ => some 1 | _ => none
@@ -183,61 +557,275 @@ def decode (a : Archive) : BState :=
     vendor := match a.label with | .gen _ v _ => v | .other _ => none
     generators := a.generators
     thumbnail := entryThumb a.entries
-    redactions := a.redactions
-    ingredients := entryIngs a.entries
+    redactions := if a.redactions.isEmpty then none else some a.redactions
+    ingredients := entryIngs a.version a.manifests a.entries
     assertions := decodeEntries a.entries
     hashAlg := none
-    instanceId := a.instanceId }
+    instanceId := a.instanceId
+    intent := none
+    remoteUrl := none
+    noEmbed := false }
 
-/-- What `Builder::sign(format, …)` turns into the claim, i.e. the signing input: `sign`
-overwrites `definition.format` with its argument (and the instance id from the asset's XMP),
-`to_claim` normalises labels and marks the first generator. -/
-structure SignInput where
+/-! ### `Builder::sign` and what the `Reader` reports of the result -/
+
+/-- `maybe_add_parent`: an Edit / Update intent without a parent ingredient (and without an
+inception action of its own) takes the source asset as parent (`src`) -/
+def maybeAddParent (src : Ing) (s : BState) : BState :=
+  let hasInception := s.assertions.any (fun a => isActions a.label && a.acts.any isInception)
+  if (s.intent == some .edit || s.intent == some .update) && !hasInception && !hasParent s then
+    { s with ingredients := s.ingredients ++ [{ src with rel := "parentOf" }] }
+  else s
+
+/-- the signed claim, read back -/
+def bindData (c : Claim) : Claim := wire { c with entries := c.entries ++ [Entry.dataHash] }
+
+def sign (cfg : Cfg) (src : Ing) (s : BState) (guid : String) : Except Err Claim :=
+  (toClaim cfg (maybeAddParent src s) guid).map bindData
+
+/-- an ingredient as reported -/
+structure IngR where
+  title : String
+  format : String
+  rel : String
+  iid : String
+  label : String × Nat
+  active : Option String
+  results : Option Bool
+  status : List String
+  /-- the image the reported thumbnail identifier resolves to -/
+  thumb : Option String
+  deriving DecidableEq, Repr
+
+def locImg (active : Option String) : TLoc → String
+  | .ownClaim => ownImg (active.getD "")
+  | .databox img => img
+  | .ingThumb img => img
+
+structure Report where
   title : Option String
   version : Nat
   generators : List Gen
   thumbnail : Option (String × String)
-  redactions : Option (List String)
-  ingredients : List Ing
-  assertions : List Entry
+  redactions : List Red
+  ingredients : List IngR
+  /-- label, instance, payload, kind, created — in claim order -/
+  assertions : List (BAsn × Nat)
+  /-- the other manifests of the store -/
+  manifests : List Man
   alg : Option String
+  remote : Option String
+  embedded : Bool
+  update : Bool
   deriving DecidableEq, Repr
 
-def signInput (s : BState) : SignInput :=
-  { title := s.title, version := s.v, generators := markGens s.generators
-    thumbnail := s.thumbnail, redactions := s.redactions, ingredients := s.ingredients
-    assertions := claimOrder s.v (numberAsns s.v s.assertions []), alg := s.hashAlg }
+def reportIngs (v : Nat) : List Entry → List IngR
+  | [] => []
+  | .ingredient i k :: es =>
+    { title := i.title, format := i.format, rel := i.rel, iid := i.iid, label := (ingLabel v, k)
+      active := i.active, results := i.results, status := i.status
+      thumb := i.thumb.map (locImg i.active) } :: reportIngs v es
+  | _ :: es => reportIngs v es
+
+def reportAsns : List Entry → List (BAsn × Nat)
+  | [] => []
+  | .user a k :: es =>
+    if shownLabel a.label then ({ a with json := reportKind a.label a.json }, k) :: reportAsns es
+    else reportAsns es
+  | _ :: es => reportAsns es
+
+/-- `Manifest::from_store` on a signed claim -/
+def report (c : Claim) : Report :=
+  { title := c.title, version := c.version, generators := c.generators
+    thumbnail := entryThumb c.entries, redactions := c.redactions
+    ingredients := reportIngs c.version c.entries
+    assertions := reportAsns c.entries
+    manifests := c.manifests, alg := c.alg, remote := c.remote, embedded := c.embedded
+    update := c.update }
 
 /-- save/restore chain with the given fresh guids -/
-def chain : List String → BState → BState
-  | [], s => s
-  | g :: gs, s => chain gs (decode (encode s g))
+def chain (cfg : Cfg) : List String → BState → Except Err BState
+  | [], s => .ok s
+  | g :: gs, s =>
+    match encode cfg s g with
+    | .error e => .error e
+    | .ok a => chain cfg gs (decode a)
 
-/-! ### line protocol -/
+/-! ### line protocol
 
-def parseAsns (s : String) : List BAsn :=
-  (splitList (if s == "-" then "" else s) ",").map fun t =>
-    match t.splitOn ":" with
-    | [l, k, c] => ⟨l, "", k == "j", c == "c"⟩
-    | _ => ⟨t, "", false, false⟩
+The harness abstracts a real `Builder` (its serialised definition plus the ingredients'
+materialised manifest stores) into a state line, the same way before and after the round trips:
+
+  v= title= thumb= gens= alg= intent= noembed= remote= label= red= asn= ing= xa= xt=
+
+* `asn` — `,`-separated `label:kind:created:acts:ntmpl` (`acts` `+`-separated or `-`)
+* `ing` — `;`-separated `rel/thumb/results/nstatus/active/label/store`; `store` is `+`-separated
+  manifests `name!version!thumb!links!asns` (`links` `~`-separated `a<name>` / `c<name>`)
+* `red` — `,`-separated `manifest!assertion`
+-/
+
+def optList (s : String) (sep : String) : List String :=
+  if s == "-" || s.isEmpty then [] else s.splitOn sep
+
+def parseAsn (t : String) : BAsn :=
+  match t.splitOn ":" with
+  | [l, k, c, acts, nt] =>
+    ⟨l, "", optList acts "+", List.replicate (nt.toNat?.getD 0) "t", k == "j", c == "c"⟩
+  | _ => ⟨t, "", [], [], false, false⟩
 
 def asnStr (a : BAsn) : String :=
-  a.label ++ ":" ++ (if a.json then "j" else "c") ++ ":" ++ (if a.created then "c" else "g")
+  a.label ++ ":" ++ (if a.json then "j" else "c") ++ ":" ++ (if a.created then "c" else "g") ++ ":" ++
+    (if a.acts.isEmpty then "-" else "+".intercalate a.acts) ++ ":" ++ toString a.tmpls.length
+
+def parseLink (t : String) : Bool × String := (t.startsWith "a", (t.drop 1).toString)
+
+def parseMan (t : String) : Man :=
+  match t.splitOn "!" with
+  | [n, v, th, links, asns] =>
+    ⟨n, v.toNat?.getD 1, th == "1", optList asns "~", (optList links "~").map parseLink⟩
+  | _ => ⟨t, 1, false, [], []⟩
+
+def linkStr (l : Bool × String) : String := (if l.1 then "a" else "c") ++ l.2
+
+def manStr (m : Man) : String :=
+  m.label ++ "!" ++ toString m.v ++ "!" ++ (if m.thumb then "1" else "0") ++ "!" ++
+    (if m.links.isEmpty then "-" else "~".intercalate (m.links.map linkStr)) ++ "!" ++
+    (if m.asns.isEmpty then "-" else "~".intercalate m.asns)
+
+def parseThumb (t : String) : Option TRef :=
+  if t == "-" then none
+  else if t == "ownh" then some (.own true)
+  else if t == "own" then some (.own false)
+  else if t.startsWith "outer" then some (.outer ((t.drop 6).toString))
+  else some (.res ((t.drop 4).toString))
+
+def thumbStr : Option TRef → String
+  | none => "-"
+  | some (.own true) => "ownh"
+  | some (.own false) => "own"
+  | some (.outer _) => "outer"
+  | some (.res _) => "res"
+
+def parseIng (k : Nat) (t : String) : Ing :=
+  match t.splitOn "/" with
+  | [rel, th, res, nst, act, lab, store] =>
+    { title := s!"t{k}", format := "f", rel := rel, iid := s!"i{k}"
+      label := if lab == "-" then none else
+        match lab.splitOn "#" with
+        | [l, n] => some (l, n.toNat?.getD 0)
+        | _ => some (lab, 0)
+      active := if act == "-" then none else some act
+      store := (optList store "+").map parseMan
+      results := if res == "v" then some true else if res == "i" then some false else none
+      status := List.replicate (nst.toNat?.getD 0) "s"
+      thumb := parseThumb th }
+  | _ => ⟨t, "f", "componentOf", "i", none, none, [], none, [], none⟩
+
+def parseIngs : List String → Nat → List Ing
+  | [], _ => []
+  | t :: ts, k => parseIng k t :: parseIngs ts (k + 1)
+
+/-- manifests are printed sorted by name (the harness sorts too): insertion sort -/
+def insertMan (m : Man) : List Man → List Man
+  | [] => [m]
+  | x :: xs => if m.label < x.label then m :: x :: xs else x :: insertMan m xs
+
+def sortMans (ms : List Man) : List Man := ms.foldl (fun acc m => insertMan m acc) []
+
+def ingStr (i : Ing) : String :=
+  i.rel ++ "/" ++ thumbStr i.thumb ++ "/" ++
+    (match i.results with | some true => "v" | some false => "i" | none => "-") ++ "/" ++
+    toString i.status.length ++ "/" ++ i.active.getD "-" ++ "/" ++
+    (match i.label with | some (l, n) => l ++ "#" ++ toString n | none => "-") ++ "/" ++
+    (if i.store.isEmpty then "-" else "+".intercalate ((sortMans i.store).map manStr))
+
+def parseRed (t : String) : Red :=
+  match t.splitOn "!" with
+  | [m, a] => (m, a)
+  | _ => (t, "")
+
+def parseIntent (t : String) : Option Intent :=
+  if t == "create" then some .create else if t == "edit" then some .edit
+  else if t == "update" then some .update else none
+
+def intentStr : Option Intent → String
+  | some .create => "create" | some .edit => "edit" | some .update => "update" | none => "-"
+
+def parseState (toks : List String) : BState :=
+  let v := (field toks "v").toNat?.getD 2
+  let gens := match (field toks "gens").splitOn "." with
+    | [n, m] => (List.range (n.toNat?.getD 0)).map fun k => (⟨s!"g{k}", k == 0 && m == "1"⟩ : Gen)
+    | _ => []
+  { title := if field toks "title" == "1" then some "t" else none
+    format := "f"
+    version := if field toks "vset" == "0" then none else some v
+    label := if field toks "label" == "1" then some (.gen (v == 1) none "user") else none
+    vendor := none
+    generators := gens
+    thumbnail := if field toks "thumb" == "-" then none else some (field toks "thumb", "claimthumb")
+    redactions := if field toks "red" == "-" then none else some ((optList (field toks "red") ",").map parseRed)
+    ingredients := parseIngs (optList (field toks "ing") ";") 0
+    assertions := (optList (field toks "asn") ",").map parseAsn
+    hashAlg := if field toks "alg" == "-" then none else some (field toks "alg")
+    instanceId := "i"
+    intent := parseIntent (field toks "intent")
+    remoteUrl := if field toks "remote" == "1" then some "r" else none
+    noEmbed := field toks "noembed" == "1" }
+
+def stateStr (s : BState) : String :=
+  let asn := s.assertions.map asnStr
+  let ing := s.ingredients.map ingStr
+  let red := (s.redactions.getD []).map fun r => r.1 ++ "!" ++ r.2
+  s!"v={s.v} title={if s.title.isSome then 1 else 0} thumb={match s.thumbnail with | some (f, _) => f | none => "-"} " ++
+  s!"gens={s.generators.length}.{if (s.generators.head?.map (·.marked)).getD false then 1 else 0} " ++
+  s!"alg={s.hashAlg.getD "-"} intent={intentStr s.intent} noembed={if s.noEmbed then 1 else 0} " ++
+  s!"remote={if s.remoteUrl.isSome then 1 else 0} label={if s.label.isSome then 1 else 0} " ++
+  s!"red={if s.redactions.isNone then "-" else if red.isEmpty then "none" else ",".intercalate red} " ++
+  s!"asn={if asn.isEmpty then "-" else ",".intercalate asn} ing={if ing.isEmpty then "-" else ";".intercalate ing}"
+
+def Err.str : Err → String
+  | .badParam => "badparam" | .redactionNotFound => "redactionnotfound"
+  | .invalidRedaction => "invalidredaction" | .versionTooNew => "versiontoonew"
+  | .noProvenance => "noprovenance"
+
+def repIngStr (i : IngR) : String :=
+  i.rel ++ "/" ++ i.label.1 ++ "#" ++ toString i.label.2 ++ "/" ++ i.active.getD "-" ++ "/" ++
+    (match i.results with | some true => "v" | some false => "i" | none => "-") ++ "/" ++
+    toString i.status.length ++ "/" ++
+    (match i.thumb with
+      | none => "-"
+      | some img => if img == ownImg (i.active.getD "") then "own" else "img")
+
+def reportStr (r : Report) : String :=
+  let asn := r.assertions.map fun (a, k) => asnStr a ++ "#" ++ toString k
+  let ing := r.ingredients.map repIngStr
+  let red := r.redactions.map fun x => x.1 ++ "!" ++ x.2
+  s!"v={r.version} title={if r.title.isSome then 1 else 0} thumb={match r.thumbnail with | some (f, _) => f | none => "-"} " ++
+  s!"gens={r.generators.length}.{if (r.generators.head?.map (·.marked)).getD false then 1 else 0} " ++
+  s!"embedded={if r.embedded then 1 else 0} remote={if r.remote.isSome then 1 else 0} " ++
+  s!"red={if red.isEmpty then "-" else ",".intercalate red} " ++
+  s!"asn={if asn.isEmpty then "-" else ",".intercalate asn} ing={if ing.isEmpty then "-" else ";".intercalate ing} " ++
+  s!"mans={if r.manifests.isEmpty then "-" else "+".intercalate ((sortMans r.manifests).map manStr)}"
+
+/-- the source asset taken as parent by `maybe_add_parent` (an unsigned asset) -/
+def srcIng : Ing := ⟨"src", "f", "parentOf", "isrc", none, none, [], none, [], none⟩
 
 def handle (toks : List String) : String :=
   match toks with
-  | "chain" :: rest =>
+  | op :: rest =>
     let n := (field rest "n").toNat?.getD 1
-    let v := (field rest "v").toNat?.getD 2
-    let s : BState :=
-      { title := some "t", format := "f", version := some v, label := none, vendor := none
-        generators := [⟨"g", false⟩], thumbnail := if field rest "thumb" == "1" then some ("f", "b") else none
-        redactions := none, ingredients := [], assertions := parseAsns (field rest "asn")
-        hashAlg := if field rest "alg" == "-" then none else some (field rest "alg")
-        instanceId := "i" }
-    let r := chain (List.replicate n "guid") s
-    let asn := r.assertions.map asnStr
-    s!"v={r.v} thumb={if r.thumbnail.isSome then 1 else 0} alg={r.hashAlg.getD "-"} asn={if asn.isEmpty then "-" else ",".intercalate asn}"
+    let cfg : Cfg :=
+      { extraActions := optList (field rest "xa") "+"
+        templates := List.replicate ((field rest "xt").toNat?.getD 0) "t" }
+    let s := parseState rest
+    match chain cfg (List.replicate n "guid") s with
+    | .error e => "err:" ++ e.str
+    | .ok r =>
+      if op == "chain" then stateStr r
+      else if op == "sign" then
+        match sign cfg srcIng r "guid" with
+        | .error e => "signerr:" ++ e.str
+        | .ok c => reportStr (report c)
+      else "bad-op"
   | _ => "bad-op"
 
 end C2pa.C22
